@@ -134,3 +134,78 @@ for _tag, _Lspec in (('any L', Int()),):
           'lemmas_pres': ['sum_unfold(needs, 0, _i)'] + ([] if _tag == 'L=3' else ['mod_shift(term[0][1], L)']),
       }},
   )
+
+
+# ---------------------------------------------------------------------------------------------------------------
+# The two-site version, CouplingTerms.coupling_term_handle_JW (what add_coupling / add_local_term use for two factors):
+# with op_string=None a Jordan-Wigner string runs between the two sites iff both factors need one, and then JW is multiplied onto
+# the left factor from the right; exactly one fermionic factor is an error; a given op_string is used as it is.  Sites and
+# strength are passed through untouched.
+from pyvc.contract import FixedList as _FixedList, OneOf as _OneOf, Real as _Real
+
+
+def _setup2(I, env):
+    L = env['self'].attrs['L']
+    I.ghost['uninterpreted_mod'] = True
+
+    def site_at(I_, idx):
+        def needs(I2, op):
+            return _NEEDS(to_z3(idx), to_z3(op, U))
+
+        def mul(I2, names):
+            names = list(names)
+            if len(names) == 2 and names[1] == 'JW':
+                return Opq(_MULJW(to_z3(idx), to_z3(names[0], U)))
+            from pyvc.interp import Unsupported
+            raise Unsupported('multiply_op_names called with something else than [op, "JW"]')
+        return SObj('GhostSite', None, {'op_needs_JW': Builtin(needs, 'op_needs_JW'), 'multiply_op_names': Builtin(mul, 'multiply_op_names')})
+    env['sites'] = SObj('GhostSiteList', None, {'__getitem__': Builtin(site_at, 'sites[i]')})
+    (op_i, i), (op_j, j) = env['term']
+    I.ghost['__env__'] = {'need_i': _NEEDS(I.MODU(to_z3(i), to_z3(L)), to_z3(op_i, U)), 'need_j': _NEEDS(I.MODU(to_z3(j), to_z3(L)), to_z3(op_j, U)),
+                          'op_i': op_i, 'op_j': op_j, 'i': i, 'j': j,
+                          'times_JW': Builtin(lambda I2, k, op: Opq(_MULJW(I2.MODU(to_z3(k), to_z3(L)), to_z3(op, U))), 'times_JW')}
+
+
+def _hunt2():
+    import warnings
+    import numpy as np
+    warnings.simplefilter('ignore')
+    import sys
+    sys.path.insert(0, '/verif')
+    from bounded import mpsgen
+    from tenpy.networks.site import FermionSite
+    from tenpy.networks.terms import CouplingTerms
+    L = 4
+    sites = [FermionSite('N') for _ in range(L)]
+    for i in range(L):
+        for j in range(i + 1, L):
+            for a, b in (('C', 'Cd'), ('Cd', 'C'), ('N', 'N'), ('C', 'C')):
+                ct = CouplingTerms(L)
+                _, i2, j2, oi, oj, ostr = ct.coupling_term_handle_JW(1., [(a, i), (b, j)], sites)
+                mats = [np.eye(2)] * L
+                mats[i2] = sites[i2].get_op(oi).to_ndarray()
+                mats[j2] = sites[j2].get_op(oj).to_ndarray()
+                for k in range(i2 + 1, j2):
+                    mats[k] = sites[k].get_op(ostr).to_ndarray()
+                dense = mats[0]
+                for m in mats[1:]:
+                    dense = np.kron(dense, m)
+                if (i2, j2) != (i, j) or not np.allclose(dense, mpsgen.op_dense(sites, [(a, i), (b, j)])):
+                    return {'input': {'term': [(a, i), (b, j)], 'sites': 'FermionSite chain L=4'},
+                            'observed': f'ops {oi}, {oj} at {i2}, {j2} with string {ostr} differ from the fermionic product'}
+    return None
+
+
+Contract(
+    target=f'{TERMS}::CouplingTerms.coupling_term_handle_JW', props=['C10', 'C12'], name='CouplingTerms.coupling_term_handle_JW',
+    params={'self': Obj('CouplingTerms', TERMS, {'L': Int()}), 'strength': Opaque(),
+            'term': _FixedList([_FixedList([Opaque(), Int()], as_tuple=True), _FixedList([Opaque(), Int()], as_tuple=True)]),
+            'sites': Const(None), 'op_string': _OneOf(None, 'JW', 'Id', 'Sz')},
+    setup=_setup2, hunt=_hunt2,
+    requires=['self.L >= 1'],
+    raises={'ValueError': 'is_none(op_string) and (need_i != need_j)'},
+    ensures=['result[0] == strength and result[1] == i and result[2] == j and result[4] == op_j',
+             'implies(is_none(op_string), result[5] == ite(need_i and need_j, "JW", "Id"))',
+             'implies(not is_none(op_string), result[5] == op_string)',
+             'result[3] == ite(result[5] == "JW", times_JW(i, op_i), op_i)'],
+)
